@@ -160,18 +160,18 @@ type caseRun struct {
 	log     []rec
 	flushed int
 
-	w        *index.Writer
-	opening  bool
-	closing  bool
-	files    map[string][]byte
-	inflight map[string][]byte
+	w          *index.Writer
+	opening    bool
+	closing    bool
+	files      map[string][]byte
+	inflight   map[string][]byte
 	obsCommits []uint64 // Commit calls seen while OpenWriter runs
 
-	rootSegs []uint64
-	isFile   map[uint64]bool
-	epochK   map[uint64]int
-	applied  int
-	grabSegs []uint64
+	rootSegs   []uint64
+	isFile     map[uint64]bool
+	epochK     map[uint64]int
+	applied    int
+	grabSegs   []uint64
 	jobDirFail bool // a Persist of the persister's own job failed since the last grab
 
 	introSem chan struct{}
@@ -189,25 +189,30 @@ type caseRun struct {
 	imgEvery int
 
 	// Recover / Faults (recover.go, faults.go)
-	prev       map[string][]byte                       // previous content of the in-flight names
-	junk       map[string][]byte                       // torn leftovers of an earlier crash that are still in the directory
-	lastLoaded uint64                                  // epoch of the last snapshot loadSnapshots made the root
-	loadedAny  bool
-	wrapDir    func(index.Directory) index.Directory  // fault injector between the recording Directory and the file system
-	cfgHook    func(*index.Config)
-	asyncErrs  int
-	lt         *lifetime
-	mergeSeg   map[uint64]bool // segment ids whose Persist is a merge's (for the fault injector's categories)
-	jobErrInjected bool        // Faults: an operation of the persister's current job failed by injection (its error is not ErrClosed)
+	prev           map[string][]byte // previous content of the in-flight names
+	junk           map[string][]byte // torn leftovers of an earlier crash that are still in the directory
+	lastLoaded     uint64            // epoch of the last snapshot loadSnapshots made the root
+	loadedAny      bool
+	wrapDir        func(index.Directory) index.Directory // fault injector between the recording Directory and the file system
+	cfgHook        func(*index.Config)
+	asyncErrs      int
+	lt             *lifetime
+	mergeSeg       map[uint64]bool // segment ids whose Persist is a merge's (for the fault injector's categories)
+	jobErrInjected bool            // Faults: an operation of the persister's current job failed by injection (its error is not ErrClosed)
 
 	// closerace (closerace.go)
-	gate       *persistGate // holds the persister inside one Persist of its own job
-	forceImage bool         // every record keeps its crash image while set
-	live       []interface{}        // crashreopen (crashreopen.go): the recording Directory/Policy objects of the open writer
-	dead       map[interface{}]bool // … and those (and the writers) abandoned by a simulated crash: they record nothing any more
-	gen        int                  // incremented by a simulated crash
-	lastGrabX  uint64               // acknowledgements taken by the persister's latest grab
-	nblocked   int          // Batch calls that did not return within their bound (their goroutines pin a root: handles cannot balance)
+	gate             *persistGate         // holds the persister inside one Persist of its own job
+	forceImage       bool                 // every record keeps its crash image while set
+	live             []interface{}        // crashreopen (crashreopen.go): the recording Directory/Policy objects of the open writer
+	dead             map[interface{}]bool // … and those (and the writers) abandoned by a simulated crash: they record nothing any more
+	gen              int                  // incremented by a simulated crash
+	lastGrabX        uint64               // acknowledgements taken by the persister's latest grab
+	hgen             int                  // handle generation: bumped when a writer is abandoned (simulated crash, callers left blocked)
+	closeErrArmed    bool                 // closeerr scenario: Load closers close, then report an error
+	closeErrInjected int
+	sgate            *statsGate // skipmerge scenario: holds the persister in Directory.Stats()
+	persisterGoid    uint64     // goroutine of the latest grab
+	nblocked         int        // Batch calls that did not return within their bound (their goroutines pin a root: handles cannot balance)
 }
 
 var current *caseRun
@@ -452,6 +457,10 @@ func (c *caseRun) traceLocked(kind string, snap *index.Snapshot, x uint64) {
 	case "grab":
 		c.grabSegs = snapIDs(snap)
 		c.lastGrabX = x
+		c.persisterGoid = goid()
+		if c.gate != nil && c.gate.bindGrab {
+			c.gate.goid = c.persisterGoid // the gate holds a Persist on the persister's goroutine only
+		}
 		c.jobDirFail = false
 		c.jobErrInjected = false
 		c.recordLocked(fmt.Sprintf("grab %d %d", snap.VerifEpoch(), x))
@@ -490,27 +499,42 @@ type countCloser struct {
 	c     *caseRun
 	inner io.Closer
 	done  bool
+	hgen  int // handle generation (skipmerge.go): closers of an abandoned writer are not counted
 }
 
 func (cc *countCloser) Close() error {
 	cc.c.mu.Lock()
-	if cc.done {
-		cc.c.dblClose++
-	} else {
-		cc.done = true
-		cc.c.closes++
+	if cc.hgen == cc.c.hgen {
+		if cc.done {
+			cc.c.dblClose++
+		} else {
+			cc.done = true
+			cc.c.closes++
+		}
+	}
+	inject := cc.c.closeErrArmed
+	if inject {
+		cc.c.closeErrInjected++
 	}
 	cc.c.mu.Unlock()
+	var err error
 	if cc.inner != nil {
-		return cc.inner.Close()
+		err = cc.inner.Close()
 	}
-	return nil
+	if inject && err == nil {
+		// the handle really is closed; the error is reported afterwards (closeerr scenario)
+		err = fmt.Errorf("verif: injected closer error")
+	}
+	return err
 }
 
-func (d *recDir) Setup(ro bool) error                      { return d.inner.Setup(ro) }
-func (d *recDir) List(kind string) ([]uint64, error)       { return d.inner.List(kind) }
-func (d *recDir) Stats() (uint64, uint64)                  { return d.inner.Stats() }
-func (d *recDir) Sync() error                              { return d.inner.Sync() }
+func (d *recDir) Setup(ro bool) error                { return d.inner.Setup(ro) }
+func (d *recDir) List(kind string) ([]uint64, error) { return d.inner.List(kind) }
+func (d *recDir) Stats() (uint64, uint64) {
+	d.c.statsGateWait(d)
+	return d.inner.Stats()
+}
+func (d *recDir) Sync() error { return d.inner.Sync() }
 func (d *recDir) Load(kind string, id uint64) (*segment.Data, io.Closer, error) {
 	if d.c.isDead(d) {
 		return d.inner.Load(kind, id)
@@ -523,7 +547,7 @@ func (d *recDir) Load(kind string, id uint64) (*segment.Data, io.Closer, error) 
 	d.c.mu.Lock()
 	d.c.loads++
 	d.c.mu.Unlock()
-	return data, &countCloser{c: d.c, inner: cl}, nil
+	return data, &countCloser{c: d.c, inner: cl, hgen: d.c.hgen}, nil
 }
 
 func (d *recDir) Lock() error {
@@ -978,10 +1002,10 @@ func (c *caseRun) variants(im *image) []variant {
 }
 
 type imgJob struct {
-	recIdx  int
-	name    string
-	dir     string
-	result  string
+	recIdx int
+	name   string
+	dir    string
+	result string
 }
 
 // runChildren opens every image directory with the real bluge.OpenReader in child processes.
@@ -1256,6 +1280,21 @@ func (h *H) Gen(r *hlib.Rand, tier string, scale int, emit func(string)) {
 			ins("crashreopen "+v+" "+mk(), 3)
 			ops = append(ops, "b "+mk())
 		}
+		if unsafe {
+			// the persister's in-memory merge of two batches is skipped: a third batch deleted every document in them
+			tok++
+			a := batchSpec{tok: tok, cb: true}
+			tok++
+			b := batchSpec{tok: tok, cb: true}
+			tok++
+			d := batchSpec{tok: tok, cb: true, dels: []int{a.tok, b.tok}}
+			live = append(live, d.tok)
+			ins("skipmerge "+a.String()+" "+b.String()+" "+d.String(), 2)
+		}
+		if ci%2 == 1 {
+			ins("closeerr", 3)
+			ops = append(ops, "b "+mk())
+		}
 		if !unsafe {
 			// Close() while one batch is inside the persister and 1–3 more are queued behind it
 			k := r.Range(2, 4)
@@ -1279,7 +1318,7 @@ func (h *H) Gen(r *hlib.Rand, tier string, scale int, emit func(string)) {
 				openRd = nil
 				emit(op)
 			default:
-				if strings.HasPrefix(op, "closerace ") || strings.HasPrefix(op, "crashreopen ") {
+				if strings.HasPrefix(op, "closerace ") || strings.HasPrefix(op, "crashreopen ") || op == "closeerr" {
 					openRd = nil
 				}
 				emit(op)
@@ -1412,6 +1451,16 @@ func (h *H) Exec(line string, out func(string, string), st *hlib.Stats, work str
 		_ = after
 		c.recordLocked("second " + res)
 		c.mu.Unlock()
+	case "skipmerge":
+		// skipmerge specA specB specD : the persister's in-memory merge of A+B is skipped because D deleted everything in them
+		if len(f) > 3 {
+			st.Count("op:skipmerge")
+			c.skipMerge(parseSpec(f[1]), parseSpec(f[2]), parseSpec(f[3]), st)
+		}
+	case "closeerr":
+		// close the writer while every Load closer reports an error after closing; the directory must open again at once
+		st.Count("op:closeerr")
+		c.closeWithCloserErrors(st)
 	case "crashreopen":
 		// crashreopen <variant> spec : crash with the NEWEST snapshot file torn, reopen a writer on the crash image
 		if len(f) > 2 {
